@@ -5,9 +5,9 @@ from .c15 import RULE, G, P, U, D, S
 D_POLLS = 3
 
 
-def sc(scripts, K, block):
+def sc(scripts, K, block, q="interrupt", finding=None):
     spec = [("script", list(x)) for x in scripts] + [("host", [("interrupt", 0)])]
-    return (spec, K, "interrupt", (0, D_POLLS), block, len(spec) - 1)
+    return (spec, K, q, (0, D_POLLS) if q == "interrupt" else (), block, len(spec) - 1, finding)
 
 
 SCEN = {
@@ -15,6 +15,8 @@ SCEN = {
         "host-interrupt x interpreter": sc([[U, U, U, U]], 24, []),
         "host-interrupt x interpreter x collect": sc([[U, U, U, U], [G]], 40, []),
         "host-interrupt x interpreter x collect [overwrite excluded]": sc([[U, U, U, U], [G]], 40, ["interrupt-overwrite"]),
+        "host-interrupt x primitive-call: target never stuck": sc([[P, U]], 24, [], "lasso", "interrupt-mid"),
+        "host-interrupt x primitive-call: target never stuck [two-store window excluded]": sc([[P, U]], 24, ["interrupt-mid"], "lasso", "interrupt-mid"),
     },
     "thorough": {
         "host-interrupt x interpreter": sc([[U, U, U, U, U]], 30, []),
@@ -22,11 +24,17 @@ SCEN = {
         "host-interrupt x interpreter x collect [overwrite excluded]": sc([[U, U, U, U], [G]], 46, ["interrupt-overwrite"]),
         "host-interrupt x interpreter x assign-global [overwrite excluded]": sc([[U, U, U, U], [S]], 46, ["interrupt-overwrite"]),
         "host-interrupt x interpreter(primitive calls)": sc([[P, P, U, U]], 34, []),
+        "host-interrupt x primitive-call: target never stuck": sc([[P, U]], 24, [], "lasso", "interrupt-mid"),
+        "host-interrupt x primitive-calls: target never stuck [two-store window excluded]": sc([[P, P, U]], 32, ["interrupt-mid"], "lasso", "interrupt-mid"),
     },
 }
 
 
 def _replay(r):
+    if "never stuck" in r["name"]:
+        # unblocked: the listed two-store window (forced through hook INTERRUPT_MID); blocked twin:
+        # anything else that leaves the target parked after a completed interrupt()
+        return ("interrupt_hang", {}) if r["block"] else ("interrupt_between_stores", {})
     return "interrupt_lost", {}
 
 
